@@ -160,7 +160,8 @@ def run_select(case, ctx):
     if mode < 0.25:
         faults[rng.randrange(len(prios))] = "none"
     elif mode < 0.45:
-        exc = rng.choice([ValueError("solver failed"), RuntimeError("boom"), CustomSolverError("custom")])
+        exc = rng.choice([ValueError("solver failed"), RuntimeError("boom"), CustomSolverError("custom"),
+                          RuntimeError(), CustomSolverError(), AssertionError(), KeyError("x")])
         faults[rng.randrange(len(prios))] = exc
     rec = {}
     solver = confgen.exact_solver_factory(rec, faults)
